@@ -169,7 +169,7 @@ void harness(void)
     CHECK(r1, "C14 to_string succeeds on a valid document with ample capacity");
     CHECK(sz == ref_text_len, "C14 text length equals the reference rendering");
     for (size_t i = 0; i < TCAP; i++) { if (i < ref_text_len) CHECK(out[i] == ref_text[i], "C14 text equals the reference rendering"); }
-    COVER(r1 && sz >= 5, "main: document rendered");
+    COVER(r1 && sz >= 2, "main: document rendered");
 #else
 #ifdef NATIVE_REPLAY
     /* natively: redirect stdout into a pipe-less capture via a temporary file */
@@ -190,7 +190,7 @@ void harness(void)
     CHECK(r2, "C14 print succeeds on a valid document");
     CHECK(fmt_stdout_len == ref_text_len, "C14 printed length equals the reference rendering");
     for (size_t i = 0; i < TCAP; i++) { if (i < ref_text_len) CHECK(fmt_stdout[i] == ref_text[i], "C14 printed text equals the reference rendering byte for byte"); }
-    COVER(r2 && fmt_stdout_len >= 5, "main: document printed");
+    COVER(r2 && fmt_stdout_len >= 2, "main: document printed");
 #endif
 #ifndef NATIVE_REPLAY
     CHECK(!fmt_unknown, "MODEL LIMITATION unknown printf directive");
